@@ -24,6 +24,7 @@ SUBJ = {
  "ns-lock": "fix: name server remove(), lookup() and count() hold the lock for the whole operation",
  "memview": "fix: annotation memoryviews with multi-byte items are sized in bytes",
  "deny": "fix: thread server contains errors while refusing a connection",
+ "muxlog": "fix: multiplex server lets the logging module format exceptions it logs",
  "falsy": "fix: falsy single/session instances are not recreated on every call",
  "anns": "fix: response annotations are reset when a request or handshake starts",
  "sql-prefix": "fix: sqlite name server storage matches prefixes literally",
@@ -35,6 +36,7 @@ M = {
  ("C02", "unexposed-getter-ran-on-call"): "getter", ("C02", "private-property-served"): "private-prop",
  ("C04", "socket-opened-while-decoding"): "msgpack-topdown",
  ("C05", "request-loop-died:thread"): "deny",
+ ("C05", "request-loop-died:multiplex"): "muxlog",
  ("C06", "own-message-rejected"): "memview",
  ("C07", "marshal-none-kwargs"): "marshal-kwargs", ("C07", "marshal-batch-unmarshallable"): "marshal-batch",
  ("C08", "silent-close-unknown-serializer"): "unk-ser", ("C08", "silent-close-validator-connclosed"): "val-cc",
